@@ -105,7 +105,7 @@ def run_level(ctx, ss):
     cases, metas = [], []
     pool_terms, pool_meta = [], []
     for name, mk in configs(ss).items():
-        for rep in range(ctx.n(1, 6) * (30 if name == 'tiny-complete-graph' else 1)):
+        for rep in range(ctx.n(1, 6) * (30 if name == 'tiny-complete-graph' else 4 if name.startswith('mixingpool-explicit') else 1)):
             seed = rng.randrange(1, 10**4)
             try:
                 sim = mk(seed); sim.init()
